@@ -83,7 +83,7 @@ def main():
         json.dump(meta, open(os.path.join(d, "meta.json"), "w"), indent=1)
         print(sid, "detected" if meta["detected"] else "MISSED", {k: v.get("rules") for k, v in res.items() if isinstance(v, dict)})
     elif args.cmd == "run":
-        ids = args.ids or sorted(os.listdir(SEEDED))
+        ids = args.ids or sorted(x for x in os.listdir(SEEDED) if os.path.exists(os.path.join(SEEDED, x, "meta.json")))
         for sid in ids:
             d = os.path.join(SEEDED, sid); meta = json.load(open(os.path.join(d, "meta.json")))
             props = meta.get("checks_run") or [meta["breaks_property"]]
